@@ -431,6 +431,17 @@ _amend("C20", "rule", "Non-trivial", "HEAD is among the verbs; one case in twent
 _amend("C11", "rule", "a route with a path variable and a qu", "a route with a path variable and nested as well as top-level query parameters - formerly only a top-level qu")
 _amend("C12", "rule", "TestPropStress:", "TestPropStress (readers also probe the pre-registered, later co-owned SvcA through its path-variable binding with nested query parameters):")
 
+# round 11
+_amend("C01", "rule", "Non-trivial", "The five standard verbs are compared exactly (HTTP method tokens are case-sensitive; custom kinds in any case); one request in twelve spells its verb in another case. Non-trivial")
+_amend("C04", "rule", "Non-trivial", "Every case first builds a neighbouring mux whose options replace the JSON codec (the options of one mux say nothing about another). Non-trivial")
+_amend("C05", "rule", "Non-trivial", "One handler in six returns a plain Go error (io.EOF, errors.New) instead of a status: Unknown with the error's text. Non-trivial")
+_amend("C09", "level_note", "once is inconclusive (exit 2).", "once is inconclusive (exit 2). The scripted body reader fails after 2^21 calls, so a goroutine that spins on reads ends and is reported by the read-count oracle rather than by the clock.")
+_amend("C12", "rule", "multi-bad-s (fails in its streaming method, after both valid unary ones)", "multi-bad-s (fails in its streaming method, after both valid unary ones), conn-bad (backend without reflection), conn-badrule (backend with reflection serving un.MultiBad: refused at the rule level)")
+_amend("C13", "rule", "TestPropStress also returns", "TestPropStress lets the backend of a proxied stream fail first with a gRPC front and with a gzip-compressed HTTP/JSON upload still trickling in, and also returns")
+_amend("C14", "rule", "Non-trivial", "A third of the streaming HTTP cases use an HttpBody download written through larking.AsHTTPBodyWriter; the metadata keys include the protocol's own names and 'trailer'. Non-trivial")
+_amend("C16", "rule", "Non-trivial", "A 'long' rule kind continues a valid template to 20-40 segments (accepted or refused, never a panic); after a refused registration the refused rule's own paths and the base paths under its verbs must answer as before. Non-trivial")
+_amend("C17", "rule", "Non-trivial", "Caller buffers of 0-4096 bytes incl. 1024-3000, and for a third of the protobuf messages a size placed relative to that capacity (C-1 .. 2C+C/4+1). Non-trivial")
+
 # native coverage-guided fuzzing of the same generators (thorough tier only)
 for _k, _t in (("C01", "FuzzRoute"), ("C03", "FuzzTranscode"), ("C16", "FuzzRegister"), ("C17", "FuzzCodec")):
     PROPS[_k]["fuzz"] = {"target": _t, "seconds": 120}
